@@ -74,6 +74,13 @@ func Mutate(t *rapid.T, ts Tables, k int, allowStructural bool) (Tables, []strin
 					}
 				}
 			}
+			if tgt := out.Get(rc[2]); tgt != nil && tgt.Col(rc[3]) >= 0 && len(tgt.Rows) > 0 && rapid.IntRange(0, 3).Draw(t, "paddedDangling") == 0 {
+				// an existing id with white space around it: another string, so the reference dangles
+				id := tgt.Rows[rapid.IntRange(0, len(tgt.Rows)-1).Draw(t, "paddedOf")][tgt.Col(rc[3])]
+				if id != "" {
+					v = rapid.SampledFrom([]string{id + " \u00a0", "\u00a0 " + id, id + "\t", strings.ToUpper(id) + " \u00a0"}).Draw(t, "paddedShape")
+				}
+			}
 			if m == 1 {
 				v = ""
 			}
